@@ -120,6 +120,22 @@ ScanMany(s, p, k, m) ==
        IF o.err \in {"none", "nan-signed"} THEN LET rest == ScanMany(s, o.p, k - 1, m) IN [outs |-> <<o>> \o rest.outs, p |-> rest.p]
        ELSE [outs |-> <<o>>, p |-> o.p]
 
+\* The same machine on a stream that FAILS after its last byte (an I/O error instead of end of input): every attempt to
+\* look beyond the end is the error "ioerr" -- the end of input where a value was expected, and also the look-ahead that
+\* ends a numeral (the three-letter words inf / nan need none).  Nothing is stored by the failing step.
+ScanOneIO(s, p, m) ==
+  LET o == ScanOne(s, p, m)
+      p1 == SkipWhile(s, p, IsSp)
+      p2 == IF p1 <= Len(s) /\ s[p1] \in {43, 45} THEN p1 + 1 ELSE p1
+      isWord == p2 <= Len(s) /\ Lower(s[p2]) \in {105, 110}
+  IN IF o.err = "eof" \/ (~isWord /\ o.p > Len(s)) THEN SRes("ioerr", NaNV, Val(NaNV), o.p) ELSE o
+RECURSIVE ScanManyIO(_, _, _, _)
+ScanManyIO(s, p, k, m) ==
+  IF k = 0 THEN [outs |-> << >>, p |-> p]
+  ELSE LET o == ScanOneIO(s, p, m) IN
+       IF o.err \in {"none", "nan-signed"} THEN LET rest == ScanManyIO(s, o.p, k - 1, m) IN [outs |-> <<o>> \o rest.outs, p |-> rest.p]
+       ELSE [outs |-> <<o>>, p |-> o.p]
+
 -----------------------------------------------------------------------------
 (* C06: default text *)
 
